@@ -1,12 +1,20 @@
 """C19 — Python programs are traced at function granularity with balanced calls.
-Lean: Uft/Model/PyTrace.lean, Uft/Props/C19.lean.  Tie: correspondence (H4): the
-real uftrace_trace_python() of python/trace-python.c (whole file #included into
-harness/c19_pytrace.c, run inside an embedded interpreter with our own
-cygprof_enter/exit) against the model on the same event streams; the property
-monitor (balance, counters restored, documented selection) is evaluated on the
-implementation's output.  Thorough tier adds H5: generated Python programs under
-the snapshot's `uftrace record`."""
+Lean: Uft/Model/PyTrace.lean, Uft/Model/PyHook.lean, Uft/Props/C19.lean.  Tie: correspondence.
+(1) H4: the real uftrace_trace_python() of python/trace-python.c (whole file #included into
+harness/c19_pytrace.c, run inside an embedded interpreter with our own cygprof_enter/exit) against
+`PyTrace.run` on the same event streams; the property monitor (balance, counters restored,
+documented selection) is evaluated on the implementation's output.
+(2) H4+H1, end to end: the same function with its cygprof_enter/exit pointers set to the real
+__cyg_profile_func_enter/_exit of the snapshot's libmcount, linked statically (harness/c19_hook.c,
+c19_hook_mc.c; one process per case, scripted clock), against `PyHook.prun`: first frame by
+address incl. reuse of the address, symbol addresses and the written python.fake.sym read back by
+utils/symbol.c, libmcount's records, exit hooks that arrive with idx == 0 (also under
+AddressSanitizer).  Pre-fix behaviour is recognised through the model flags guard / pin and
+reported as F-C19-UNPAIRED-OOB / F-C19-FIRSTFRAME-ALIAS.
+Thorough tier adds H5: generated Python programs and the two finding scripts under the snapshot's
+`uftrace record`."""
 import fnmatch
+import glob
 import itertools
 import json
 import os
@@ -272,6 +280,497 @@ def fmt_ops(ops):
     return " ".join("}" if o is None else o + "{" for o in ops)
 
 
+
+# ---------------------------------------------------------------- end to end (Model/PyHook.lean)
+# The real uftrace_trace_python() in an embedded interpreter calling the real
+# __cyg_profile_func_enter/_exit of the snapshot's libmcount (harness/c19_hook.c, one process per
+# case), against `prun` of Model/PyHook.lean: first frame by address, symbol table and
+# python.fake.sym, the decision, libmcount's records, exit hooks that arrive with idx == 0.
+F_OOB = "F-C19-UNPAIRED-OOB"
+F_ALIAS = "F-C19-FIRSTFRAME-ALIAS"
+TAIL_NAMES = ["runpy._run_code", "runpy._run_module_as_main"]
+AFTER_LIB = ["threading._shutdown", "logging.shutdown"]
+HLIBS = LIBS + TAIL_NAMES + AFTER_LIB + ["sys.exit", "builtins.exec", "uftrace.<module>"]
+HLIBSTR = ",".join(HLIBS)
+
+SCRIPT_ALIAS = """#!/usr/bin/env python3
+# F-C19-FIRSTFRAME-ALIAS: after sys.exit() the frame object of python/uftrace.py's module (the
+# tracer's first_frame, remembered by address only) is released; an atexit callback whose frame
+# object has the same size is allocated at that address and all its events are dropped.
+import atexit, sys
+def f0(): pass
+def f1(): a=1
+def f2(): a=1;b=2
+def f3(): a=1;b=2;c=3
+def f4(): a=1;b=2;c=3;d=4
+def f5(): a=1;b=2;c=3;d=4;e=5
+def f6(): a=1;b=2;c=3;d=4;e=5;f=6
+def f7(): a=1;b=2;c=3;d=4;e=5;f=6;g=7
+def f8(): a=1;b=2;c=3;d=4;e=5;f=6;g=7;h=8
+def f9(): a=1;b=2;c=3;d=4;e=5;f=6;g=7;h=8;i=9
+def f10(): a=1;b=2;c=3;d=4;e=5;f=6;g=7;h=8;i=9;j=10
+def f11(): a=1;b=2;c=3;d=4;e=5;f=6;g=7;h=8;i=9;j=10;k=11
+for f in (f11, f10, f9, f8, f7, f6, f5, f4, f3, f2, f1, f0):
+    atexit.register(f)
+print("done")
+sys.exit(3)
+"""
+SCRIPT_ALIAS_FUNCS = ["f%d" % i for i in range(12)]
+
+SCRIPT_OOB = """#!/usr/bin/env python3
+# F-C19-UNPAIRED-OOB: after sys.exit() the `return` events of runpy._run_code and
+# runpy._run_module_as_main (entered before tracing started) reach __cygprof_exit with idx == 0:
+# it reads rstack[-1].flags; when bit 14 of that foreign word is set idx goes to -1, -2 and the
+# calls that follow (threading._shutdown, the atexit callback) are not recorded.
+import atexit, sys, threading
+def bye():
+    print("bye")
+def a():
+    return 1
+atexit.register(bye)
+a()
+print("done")
+sys.exit(3)
+"""
+
+
+class Fids:
+    def __init__(self, first=2):
+        self.n = first
+
+    def new(self):
+        self.n += 1
+        return self.n - 1
+
+
+def hook_tokens(forest, fids, caller, on_new=None):
+    """forest -> tokens; every Python call gets a frame object of its own, a C call carries the
+    frame of the Python function it was called from"""
+    toks = []
+    for name, kind, kids in forest:
+        if kind == "p":
+            k = fids.new()
+            toks.append("new@%d" % k)
+            if on_new:
+                on_new(k)
+            toks.append("c:%s@%d" % (name, k))
+            toks += hook_tokens(kids, fids, k, on_new)
+            toks.append("r:%s@%d" % (name, k))
+        else:
+            toks.append("C:%s@%d" % (name, caller))
+            toks += hook_tokens(kids, fids, caller, on_new)
+            toks.append(("R:" if kind == "c" else "X:") + "%s@%d" % (name, caller))
+    return toks
+
+
+def hook_case(mode, ptype, filt, toks, poke="keep", fixed="1"):
+    return "hook %s 1 1 %s - %s %s %s %s | %s" % (fixed, poke, mode, ptype, filt, HLIBSTR, " ".join(toks))
+
+
+def after_forest(rng):
+    """what still runs at top level after the program has ended"""
+    out = []
+    for _ in range(rng.randint(0, 3)):
+        n = rng.choice(["threading._shutdown", "bye", "logging.shutdown", "g"])
+        kids = []
+        if rng.random() < 0.5:
+            kids.append((rng.choice(["os.getpid", "builtins.len"]), rng.choice(["c", "c", "x"]), []))
+        if rng.random() < 0.3:
+            kids.append((rng.choice(["h", "lib.f"]), "p", []))
+        out.append((n, "p", kids))
+    return out
+
+
+def gen_hook_cases(ctx):
+    """-> list of (case line, env, class)"""
+    rng = ctx.rng
+    quick = ctx.tier == "quick"
+    pool = MAIN_PY + LIB_PY + CFUN
+    cases = []
+    cfile = os.path.join(C.VERIF, "corpus", "C19", "hook_cases.txt")
+    if os.path.exists(cfile):
+        for l in open(cfile):
+            l = l.strip()
+            if not l or l.startswith("#"):
+                continue
+            env = {}
+            while l.startswith("@"):
+                kv, l = l[1:].split(" ", 1)
+                k, v = kv.split("=", 1)
+                env[k] = v
+            cases.append((l, env, "corpus"))
+
+    def stack_env():
+        r = rng.random()
+        if r < 0.5:
+            return {}
+        if r < 0.75:
+            return {"UFTRACE_MAX_STACK": "65535"}          # what `uftrace record` passes by default
+        return {"UFTRACE_MAX_STACK": str(rng.choice([2, 3, 5]))}
+
+    def rnd_filter(tail_safe=False):
+        ptype = rng.choice(["regex", "regex", "glob", "simple"])
+        if rng.random() < 0.3:
+            return ptype, "-"
+        while True:
+            f = rand_filter(rng, ptype)
+            if not tail_safe:
+                return ptype, f
+            fl = parse_filters(f, ptype)
+            if not any(hit(ty, pat, n) for ty, pat, _ in fl for n in TAIL_NAMES):
+                return ptype, f
+
+    def program(wrap):
+        fids = Fids()
+        forest = rand_forest(rng, [rng.randint(1, 14)], rng.choice([pool, ["a", "g", "lib.f", "os.getpid"]]))
+        toks = ["new@0", "C:builtins.exec@0", "new@1"]
+        if wrap:
+            forest = [("__main__.<module>", "p", forest)]
+        toks += hook_tokens(forest, fids, 1)
+        return toks, fids
+
+    # A. whole programs (some cut off: os._exit)
+    for _ in range(60 if quick else 1500):
+        toks, _ = program(rng.random() < 0.5)
+        cls = "e2e-nested"
+        if rng.random() < 0.2:
+            evi = [i for i, t in enumerate(toks) if not t.startswith(("new@", "del@"))]
+            toks = toks[:rng.choice(evi[1:]) + 1] if len(evi) > 1 else toks
+            cls = "e2e-truncated"
+        ptype, filt = rnd_filter()
+        cases.append((hook_case(rng.choice(MODES), ptype, filt, toks), stack_env(), cls))
+
+    # B. sys.exit() / uncaught exception: lone exits of the frames entered before tracing started
+    for i in range(70 if quick else 1500):
+        toks, fids = program(True) if rng.random() < 0.85 else (["new@0", "C:builtins.exec@0", "new@1"], Fids())
+        if rng.random() < 0.5:
+            toks += ["X:builtins.exec@0", "r:uftrace.<module>@0"]
+        for name in TAIL_NAMES[:rng.randint(1, 2)]:
+            k = fids.new()
+            toks.append("new@%d" % k)
+            if name == "runpy._run_code" and rng.random() < 0.3:
+                toks.append("X:builtins.exec@%d" % k)
+            toks.append("r:%s@%d" % (name, k))
+            toks += hook_tokens(after_forest(rng), fids, k)
+        ptype, filt = rnd_filter(tail_safe=True)
+        mode = rng.choice(["SINGLE", "SINGLE", "NESTED", "NONE"])
+        cases.append((hook_case(mode, ptype, filt, toks, poke=["set", "clear", "keep"][i % 3]), stack_env(),
+                      "stray-exit"))
+
+    # C. the first frame object is released and its block handed out again
+    for _ in range(45 if quick else 800):
+        fids = Fids()
+        toks = ["new@0", "C:builtins.exec@0"]
+        caller_first = rng.random() < 0.75
+        if caller_first:
+            toks.append("new@1")
+        if rng.random() < 0.6:
+            toks.append(rng.choice(["R:builtins.exec@0", "X:builtins.exec@0"]))
+        released = rng.random() < 0.85
+        if released:
+            toks.append("del@0")
+        if not caller_first:
+            toks.append("new@1")               # the frame of the caller of the top-level C calls gets the block
+        holder = [None if caller_first else 1]
+        forest = rand_forest(rng, [rng.randint(1, 8)], ["a", "b", "g", "h", "lib.f", "os.getpid", "bye"])
+
+        def on_new(k):
+            if holder[0] is None:
+                holder[0] = k
+        for root in forest:
+            toks += hook_tokens([root], fids, 1, on_new)
+            if released and holder[0] not in (None, 1) and rng.random() < 0.6:
+                toks.append("del@%d" % holder[0])      # the block is free again: the next frame gets it
+                holder[0] = None
+        ptype, filt = rnd_filter()
+        cases.append((hook_case(rng.choice(MODES), ptype, filt, toks), stack_env(), "frame-reuse"))
+
+    # D. symbol table: many names in adversarial orders
+    for i in range(25 if quick else 300):
+        n = rng.randint(5, 45)
+        names = set()
+        while len(names) < n:
+            r = rng.random()
+            if r < 0.4:
+                names.add("m%d.f%d" % (rng.randint(0, 6), rng.randint(0, 30)))
+            elif r < 0.6:
+                names.add("f%d" % rng.randint(0, 60))
+            elif r < 0.8:
+                names.add("os.c%d" % rng.randint(0, 30))
+            else:
+                names.add(rng.choice(["a", "aa", "aaa", "ab", "a.b", "a.bb", "Z", "_x", "lib.f", "lib.ff", "lib.g"]))
+        names = sorted(names)
+        order = i % 4
+        if order == 1:
+            names.reverse()
+        elif order >= 2:
+            rng.shuffle(names)
+        seq = list(names) + [rng.choice(names) for _ in range(rng.randint(0, 10))]
+        fids = Fids()
+        toks = ["new@0", "C:builtins.exec@0", "new@1"]
+        libs = set()
+        for nm in seq:
+            if nm.startswith("os."):
+                toks += ["C:%s@1" % nm, "R:%s@1" % nm]
+                libs.add(nm)
+            else:
+                k = fids.new()
+                toks += ["new@%d" % k, "c:%s@%d" % (nm, k), "r:%s@%d" % (nm, k)]
+                if nm.startswith("lib."):
+                    libs.add(nm)
+        line = "hook 1 1 1 keep - NESTED regex %s %s | %s" % (
+            rng.choice(["-", "-", "!^m3", "^m;^f;^os"]), ",".join(sorted(libs)) or "-", " ".join(toks))
+        cases.append((line, {}, "symtab-order"))
+
+    # E. arbitrary sequences (model validation only)
+    for i in range(40 if quick else 1500):
+        fids = Fids()
+        toks = ["new@0", "C:builtins.exec@0", "new@1"]
+        frames = []
+        for _ in range(rng.randint(1, 14)):
+            r = rng.random()
+            if r < 0.45:
+                nm = rng.choice(["os.getpid", "builtins.len"])
+                fr = rng.choice([1] + [f for f, _ in frames]) if rng.random() < 0.9 else 0
+                toks.append("%s%s@%d" % (rng.choice(["C:", "R:", "X:", "C:", "o:"]), nm, fr))
+            else:
+                if frames and rng.random() < 0.6:
+                    fr, nm = rng.choice(frames)
+                else:
+                    fr, nm = fids.new(), rng.choice(["a", "g", "lib.f", "b"])
+                    frames.append((fr, nm))
+                    toks.append("new@%d" % fr)
+                toks.append("%s%s@%d" % (rng.choice(["c:", "r:", "c:"]), nm, fr))
+        ptype = rng.choice(["regex", "glob", "simple"])
+        cases.append((hook_case(rng.choice(MODES), ptype, rand_filter(rng, ptype), toks,
+                                poke=["set", "clear", "keep"][i % 3]), stack_env(), "free-form"))
+    return cases
+
+
+def parse_hook_impl(line):
+    parts = [p.strip() for p in line.split("|")]
+    if len(parts) != 6:
+        return None
+    try:
+        recs = [tuple(int(x) for x in t.split(":")) for t in parts[2].split()]
+        st = dict(kv.split("=") for kv in parts[3].split())
+        syms = []
+        for t in parts[4].split():
+            a, ty, name = t.split(":", 2)
+            syms.append((int(a), ty, name))
+        res = {}
+        for t in parts[5].split():
+            a, name = t.split("=", 1)
+            res[int(a)] = name
+        cnt = [int(x) for x in parts[1].split()]
+    except (ValueError, KeyError):
+        return None
+    return {"calls": parts[0].split(), "cnt": cnt, "recs": recs, "idx": int(st.get("idx", -9)),
+            "oob": int(st.get("oob", -9)), "lone": int(st.get("lone", -9)), "syms": syms, "res": res}
+
+
+def hook_program(toks):
+    """token list -> (forest of (name, kind, kids, t_entry, t_exit), lone exit names, complete?) for a
+    stream a Python program can produce (frame object 0 is uftrace.py's own), else None"""
+    stack = [[]]
+    names = []
+    lone = []
+    i = 0
+    for t in toks:
+        if t.startswith(("new@", "del@")):
+            continue
+        ev, fid = t.rsplit("@", 1)
+        now = 1000 + 10 * i
+        i += 1
+        if fid == "0":
+            continue
+        k, name = ev[0], ev[2:]
+        if k in "cC":
+            node = [name, k, [], now, None]
+            stack[-1].append(node)
+            stack.append(node[2])
+            names.append((name, k))
+        elif k in "rRX":
+            if not names:
+                lone.append(name)
+                continue
+            n0, k0 = names.pop()
+            if n0 != name or (k0 == "c") != (k == "r"):
+                return None
+            stack.pop()
+            node = stack[-1][-1]
+            node[1] = {"r": "p", "R": "c", "X": "x"}[k]
+            node[4] = now
+        else:
+            return None
+    return stack[0], lone, not names
+
+
+def doc_records(forest, mode, filters, libs, maxstack):
+    """the documented selection as the record stream libmcount writes for it (eager view):
+    (time, type, depth, name); calls nested deeper than --max-stack are not recorded"""
+    opt_in = filters is not None and any(m == "in" for _, _, m in filters)
+    out = []
+
+    def first(name):
+        for ty, pat, m in (filters or []):
+            if hit(ty, pat, name):
+                return m
+        return None
+
+    def walk(nodes, active, blocked, ld, depth):
+        for name, kind, kids, t0, t1 in nodes:
+            m = first(name)
+            act = active or m == "in"
+            blk = blocked or m == "out"
+            sel = (not blk) and (act or not opt_in)
+            lib = name in libs
+            tr = sel and (not lib or mode == "NESTED" or (mode == "SINGLE" and ld == 0))
+            ld2 = ld + 1 if (sel and lib and mode == "SINGLE") else ld
+            rec = tr and depth < maxstack
+            if rec:
+                out.append((t0, 0, depth, name))
+            walk(kids, act, blk, ld2, depth + 1 if tr else depth)
+            if rec and t1 is not None:
+                out.append((t1, 1, depth, name))
+    walk(forest, False, False, 0, 0)
+    return out
+
+
+def hook_monitor(model_line, impl_line):
+    """C19 end to end on the implementation's observable behaviour for one case: the records are
+    the documented selection of the program's calls (well nested, right depth, the clock readings of
+    the call's own events), every recorded address resolves through the written python.fake.sym (read
+    by the real reader) to the function that was called, the file is sorted with distinct names, an
+    exit hook with nothing on the shadow stack changes nothing.  -> None or (theorem, what)"""
+    head, toks = model_line.split("|", 1)
+    w = head.split()
+    maxstack, mode, ptype, filt, libs = int(w[5]), w[6], w[7], w[8], w[9]
+    libs = [] if libs == "-" else libs.split(",")
+    p = parse_hook_impl(impl_line)
+    if p is None:
+        return ("correspondence", "unparsable implementation output")
+    prog = hook_program(toks.split())
+    if prog is None:
+        return None
+    forest, lone, complete = prog
+    filters = parse_filters(filt, ptype)
+    if any(hit(ty, pat, n) for ty, pat, _ in (filters or []) for n in lone):
+        return None                       # a filter names a function entered before tracing started
+    if p["oob"] != 0 or p["idx"] < 0:
+        return ("c19_lone_exit_ignored", "an exit hook that arrived with idx == 0 was taken for the exit of "
+                "rstack[-1]: idx went negative (%d such hooks in this run)" % p["lone"])
+    # the symbol file
+    addrs = [a for a, _, _ in p["syms"]]
+    if not p["syms"] or p["syms"][-1][1:] != ("?", "__sym_end") or addrs != list(range(1, len(addrs) + 1)):
+        return ("c19_fake_sym_sorted", "python.fake.sym is not the consecutive sorted table: %s" % p["syms"][:6])
+    names = [n for _, _, n in p["syms"][:-1]]
+    if len(set(names)) != len(names):
+        return ("c19_sym_addr_injective", "a name has two addresses in a single process")
+    for a, ty, n in p["syms"][:-1]:
+        if (ty == "P") != (n in libs):
+            return ("c19_fake_sym_resolves", "symbol %s has type %s" % (n, ty))
+    table = {a: n for a, _, n in p["syms"][:-1]}
+    for a, n in p["res"].items():
+        if table.get(a) != n:
+            return ("c19_fake_sym_resolves", "the reader resolves address %d to %s, the tracer gave it to %s" % (
+                a, n, table.get(a)))
+    got = []
+    for t, ty, d, a in p["recs"]:
+        if ty == 0 and a not in p["res"]:
+            return ("c19_fake_sym_resolves", "recorded address %d does not resolve" % a)
+        got.append((t, ty, d, p["res"].get(a, table.get(a, "?%d" % a))))
+    want = doc_records(forest, mode, filters, libs, maxstack)
+    if complete:
+        if got != want:
+            return ("c19_end_to_end_balanced", "records %s differ from the documented selection %s" % (
+                fmt_recs(got), fmt_recs(want)))
+        if p["idx"] != 0:
+            return ("c19_end_to_end_balanced", "idx = %d after a complete run" % p["idx"])
+        if p["cnt"] != [0, 0, 0]:
+            return ("c19_state_restored", "counters after the run are %s" % p["cnt"])
+    elif got != want[:len(got)]:
+        return ("c19_end_to_end_balanced", "records %s are not a prefix of the documented selection %s" % (
+            fmt_recs(got), fmt_recs(want)))
+    return None
+
+
+def fmt_recs(recs):
+    return " ".join("%d:%s%s" % (t, n, "{" if ty == 0 else "}") for t, ty, _, n in recs[:40])
+
+
+def hook_variant(model_line, fixed, guard, pin):
+    w = model_line.split(" ", 4)
+    return " ".join([w[0], fixed, guard, pin, w[4]])
+
+
+def run_hook_cases(ctx, exe, cases, asan=False, base=0):
+    """-> list of dict(model, impl, note, rc, stderr)"""
+    from concurrent.futures import ThreadPoolExecutor
+    from lib import h1
+
+    def one(a):
+        i, (line, env, _) = a
+        e = dict(env)
+        if asan:
+            e["ASAN_OPTIONS"] = "detect_leaks=0:abort_on_error=0"
+        r = h1.run(ctx, exe, e, [line], base + i, timeout=120)
+        out = {"rc": r["rc"], "stderr": r["stderr"], "model": None, "impl": None, "note": ""}
+        for l in r["lines"]:
+            if l.startswith("MODEL "):
+                out["model"] = l[6:]
+            elif l.startswith("IMPL "):
+                out["impl"] = l[5:]
+            elif l.startswith("NOTE "):
+                out["note"] = l[5:]
+        return out
+
+    with ThreadPoolExecutor(8) as ex:
+        return list(ex.map(one, enumerate(cases)))
+
+
+def find_known(fid):
+    for f in C.known_findings("C19"):
+        if f.get("id") == fid:
+            return f
+    return None
+
+
+def e2e_confirm(ctx, which, tries=6):
+    """the finding on a concrete script under the snapshot's `uftrace record` -> dict"""
+    okb, log = ctx.make()
+    if not okb:
+        return {"built": False, "log": log[-500:]}
+    uft = os.path.join(ctx.src, "uftrace")
+    wd = os.path.join(ctx.scratch, "e2e-" + which)
+    os.makedirs(wd, exist_ok=True)
+    env = dict(os.environ)
+    env["PYTHONPATH"] = os.path.join(ctx.src, "python")
+    path = os.path.join(wd, "x.py")
+    open(path, "w").write(SCRIPT_ALIAS if which == "alias" else SCRIPT_OOB)
+    os.chmod(path, 0o755)
+    res = {"built": True, "script": path, "runs": 0, "runs_with_symptom": 0, "detail": ""}
+    for i in range(tries if which == "oob" else 2):
+        d = os.path.join(wd, "d%d" % i)
+        r = subprocess.run(["timeout", "60", uft, "record", "--libmcount-path=" + os.path.join(ctx.src, "libmcount"),
+                            "--no-event", "--no-pager", "-d", d, path], stdout=subprocess.PIPE,
+                           stderr=subprocess.PIPE, text=True, env=env, cwd=wd)
+        rp = subprocess.run(["timeout", "60", uft, "replay", "--no-pager", "-d", d, "-f", "none"],
+                            stdout=subprocess.PIPE, stderr=subprocess.PIPE, text=True, env=env)
+        ops = replay_to_ops(rp.stdout)
+        res["runs"] += 1
+        if which == "alias":
+            missing = [f for f in SCRIPT_ALIAS_FUNCS if f not in ops]
+            if missing:
+                res["runs_with_symptom"] += 1
+                res["detail"] = "atexit callbacks %s were called but are not in the trace" % ",".join(missing)
+        else:
+            if "bye" not in ops:
+                res["runs_with_symptom"] += 1
+                res["detail"] = ("the atexit callback bye() and threading._shutdown() ran (stdout has 'bye': %s) "
+                                 "but are not in the trace" % ("bye" in r.stdout))
+    return res
+
 # ---------------------------------------------------------------- harness
 def build_harness(ctx):
     exe = os.path.join(ctx.scratch, "h_c19")
@@ -285,6 +784,67 @@ def build_harness(ctx):
     ok, log = ctx.cc(exe, srcs + pl.stdout.split() + ["-ldl", "-lrt"],
                      extra=["-DHAVE_LIBPYTHON3"] + pc.stdout.split())
     return (exe if ok else None), log
+
+
+def build_hook_harness(ctx, asan=False):
+    """The end-to-end harness: harness/c19_hook.c (#includes python/trace-python.c) +
+    harness/c19_hook_mc.c linked statically with the snapshot's libmcount sources, compiled with
+    the flags /repo's Makefile uses for libmcount (lib/h1.py's recipe, plus libpython).
+    asan: libmcount and the harness instrumented by AddressSanitizer.  -> (exe | None, log)"""
+    from concurrent.futures import ThreadPoolExecutor
+    from lib import h1
+    ctx.snapshot()
+    src = ctx.src
+    if not os.path.exists(os.path.join(src, "version.h")):
+        C.sh(["make", "-C", src, "-s", "version.h"])
+        if not os.path.exists(os.path.join(src, "version.h")):
+            C.sh(["make", "-C", src, "-s", os.path.join(src, "version.h")])
+    pc = C.sh(["pkg-config", "python3-embed", "--cflags"])
+    pl = C.sh(["pkg-config", "python3-embed", "--libs"])
+    if pc.returncode != 0 or pl.returncode != 0:
+        return None, "pkg-config python3-embed failed: " + pc.stdout + pl.stdout
+    flags, from_make = h1.lib_flags(ctx)
+    san = ["-fsanitize=address", "-fno-omit-frame-pointer", "-DC19_NO_PEEK"] if asan else []
+    flags = flags + ["-w", "-D" + C.GUARD] + san
+    tag = "asan" if asan else "plain"
+    objdir = os.path.join(ctx.scratch, "c19hook-" + tag)
+    os.makedirs(objdir, exist_ok=True)
+    srcs = [f for f in glob.glob(os.path.join(src, "libmcount/*.c")) if not f.endswith("-nop.c")]
+    srcs += [os.path.join(src, "utils", u + ".c") for u in h1.UTILS]
+    srcs += glob.glob(os.path.join(src, "utils/symbol*.c"))
+    srcs += glob.glob(os.path.join(src, "arch/x86_64/mcount-*.c")) + [os.path.join(src, "arch/x86_64/symbol.c")]
+    srcs += glob.glob(os.path.join(src, "arch/x86_64/*.S"))
+    jobs = []
+    for f in srcs:
+        o = os.path.join(objdir, os.path.relpath(f, src).replace("/", "_") + ".o")
+        jobs.append((["gcc"] + flags + ["-c", f, "-o", o], o))
+    dflags = [f for f in flags if f not in ("-fvisibility=hidden", "-mgeneral-regs-only", "-fno-builtin")]
+    hdir = os.path.join(C.VERIF, "harness")
+    o = os.path.join(objdir, "drv_c19_hook_mc.o")
+    jobs.append((["gcc"] + dflags + ["-O0", "-c", os.path.join(hdir, "c19_hook_mc.c"), "-o", o], o))
+    # the python side: as the Makefile builds python/trace-python.c (no -DLIBMCOUNT)
+    pyflags = [f for f in dflags if f != "-DLIBMCOUNT"]
+    o = os.path.join(objdir, "drv_c19_hook.o")
+    jobs.append((["gcc"] + pyflags + ["-O0", "-DHAVE_LIBPYTHON3"] + pc.stdout.split() +
+                 ["-c", os.path.join(hdir, "c19_hook.c"), "-o", o], o))
+
+    def runj(j):
+        r = C.sh(j[0])
+        return r.returncode, r.stdout
+
+    with ThreadPoolExecutor(16) as ex:
+        res = list(ex.map(runj, jobs))
+    bad = [(j, r) for j, r in zip(jobs, res) if r[0] != 0]
+    if bad:
+        return None, "\n".join(" ".join(j[0][-3:]) + "\n" + r[1][-1200:] for j, r in bad[:5])
+    exe = os.path.join(ctx.scratch, "h_c19hook-" + tag)
+    libs = pl.stdout.split() + ["-ldl", "-pthread", "-lrt", "-lelf", "-ldw", "-lstdc++"]
+    r = C.sh(["gcc", "-o", exe] + san + [j[1] for j in jobs] + libs + ["-no-pie"])
+    if r.returncode != 0:
+        r = C.sh(["gcc", "-o", exe] + san + [j[1] for j in jobs] + libs)
+        if r.returncode != 0:
+            return None, r.stdout[-3000:]
+    return exe, ("flags from make -n" if from_make else "fallback flags")
 
 
 def run_harness(exe, lines, timeout=1500):
@@ -313,6 +873,8 @@ def generate(ctx):
     cdir = os.path.join(C.VERIF, "corpus", "C19")
     if os.path.isdir(cdir):
         for fn in sorted(os.listdir(cdir)):
+            if fn.startswith("hook"):
+                continue                     # end-to-end corpus: gen_hook_cases
             for l in open(os.path.join(cdir, fn)):
                 l = l.strip()
                 if l and not l.startswith("#"):
@@ -367,6 +929,198 @@ def generate(ctx):
         ptype = rng.choice(["regex", "glob", "simple"])
         cases.append((case_line(rng.choice(MODES), ptype, rand_filter(rng, ptype), evs), "free-form"))
     return cases, nexh
+
+
+
+def run_hook_part(ctx, fixed_flag):
+    """end-to-end correspondence + monitor; reports findings / violations; -> coverage dict"""
+    exe, log = build_hook_harness(ctx)
+    if exe is None:
+        C.violation(ctx, "hook-build", {"kind": "harness-build-failed", "log": log[-3000:]}, True)
+        return {"built": False}
+    ctx.notes.append("end-to-end harness (trace-python.c + static libmcount) built with " + log)
+    cases = gen_hook_cases(ctx)
+    res = run_hook_cases(ctx, exe, cases)
+    broken = [i for i, r in enumerate(res) if r["model"] is None or r["impl"] is None]
+    if broken:
+        i = broken[0]
+        C.violation(ctx, "hook-harness", {"kind": "harness-failed", "cases_without_output": len(broken),
+                                          "model_input": cases[i][0], "env": cases[i][1], "rc": res[i]["rc"],
+                                          "stderr": res[i]["stderr"][-1500:]}, True)
+        return {"built": True, "harness_failures": len(broken)}
+    n = len(cases)
+    models = [r["model"] for r in res]
+    impls = [C.norm(r["impl"]) for r in res]
+    var = {}
+    for g, p in (("1", "1"), ("0", "1"), ("1", "0"), ("0", "0")):
+        var[(g, p)] = [C.norm(x) for x in C.run_model("C19", [hook_variant(m, fixed_flag, g, p) for m in models])]
+    mon = {}
+    for i in range(n):
+        bad = hook_monitor(models[i], impls[i])
+        if bad:
+            mon[i] = bad
+    neq = [i for i in range(n) if impls[i] != var[("1", "1")][i]]
+    # which pre-fix flags explain each disagreement
+    need_oob, need_alias, unexplained = [], [], []
+    for i in neq:
+        if impls[i] == var[("0", "1")][i]:
+            need_oob.append(i)
+        elif impls[i] == var[("1", "0")][i]:
+            need_alias.append(i)
+        elif impls[i] == var[("0", "0")][i]:
+            need_oob.append(i)
+            need_alias.append(i)
+        else:
+            unexplained.append(i)
+    g = "0" if need_oob else "1"
+    p = "0" if need_alias else "1"
+    # with those flags the pre-fix model has to explain every case; a frame-reuse case in which the
+    # allocator did not hand the block out again (NOTE alias=-) is allowed to look like the repaired code
+    not_reused = 0
+    for i in range(n):
+        if impls[i] == var[(g, p)][i]:
+            continue
+        if p == "0" and impls[i] == var[(g, "1")][i] and "alias=-" in res[i]["note"]:
+            not_reused += 1
+            continue
+        if g == "0" and impls[i] == var[("1", p)][i]:
+            continue          # cannot happen (the guard only matters when it is looked at); kept explicit
+        if i not in unexplained:
+            unexplained.append(i)
+    firstref = sorted({r["note"].split("firstref=")[1].split()[0] for r in res if "firstref=" in r["note"]})
+
+    def replay_obj(i, kind, script=None):
+        o = {"kind": kind, "model_input": models[i], "harness_input": cases[i][0], "env": cases[i][1],
+             "class": cases[i][2], "impl_output": impls[i], "model_output": var[("1", "1")][i],
+             "model_output_prefix_guard0": var[("0", "1")][i], "model_output_prefix_pin0": var[("1", "0")][i],
+             "harness_note": res[i]["note"], "what": mon[i][1] if i in mon else None,
+             "theorem": mon[i][0] if i in mon else "correspondence PyHook.prun vs uftrace_trace_python + libmcount"}
+        if script:
+            o.update(script)
+        return o
+
+    # ---- AddressSanitizer build: the out-of-bounds read itself, whatever the word holds
+    asan = {"built": False}
+    aexe, alog = build_hook_harness(ctx, asan=True)
+    asan_hits = []
+    if aexe is None:
+        C.violation(ctx, "hook-asan-build", {"kind": "harness-build-failed", "log": alog[-2000:]}, True)
+    else:
+        # runs in which an exit hook arrives with idx == 0 (per the repaired model), and a few without
+        def lone_of(i):
+            q = parse_hook_impl(var[("1", "1")][i])
+            return q["lone"] if q else 0
+        withl = [i for i in range(n) if cases[i][2] in ("stray-exit", "corpus") and lone_of(i) > 0]
+        without = [i for i in range(n) if cases[i][2] == "stray-exit" and lone_of(i) == 0]
+        k = 10 if ctx.tier == "quick" else 60
+        sel = [(cases[i][0].replace(" set - ", " keep - ").replace(" clear - ", " keep - "), cases[i][1], cases[i][2])
+               for i in withl[:k] + without[:k // 4]]
+        ares = run_hook_cases(ctx, aexe, sel, asan=True, base=100000)
+        # how many exit hooks arrive with idx == 0 in each of these runs (repaired model)
+        mlines = []
+        for line, env, _ in sel:
+            w = line.split(" ", 6)
+            mlines.append(" ".join(w[:4] + ["0", env.get("UFTRACE_MAX_STACK", "1024"), w[6]]))
+        lone_n = [parse_hook_impl(x)["lone"] for x in C.run_model("C19", mlines)]
+        clean = 0
+        other = []
+        for (line, env, _), r, ln in zip(sel, ares, lone_n):
+            if "AddressSanitizer" in r["stderr"]:
+                where = "__cygprof_exit" if ("__cygprof_exit" in r["stderr"] and ln > 0) else "elsewhere"
+                asan_hits.append((line, env, where, r["stderr"]))
+            elif r["impl"] is None:
+                other.append((line, r))
+            else:
+                clean += 1
+        asan = {"built": True, "cases": len(sel), "clean": clean, "cases_with_a_lone_exit": sum(1 for x in lone_n if x > 0),
+                "reports_in_cygprof_exit": sum(1 for h in asan_hits if h[2] == "__cygprof_exit"),
+                "reports_elsewhere": sum(1 for h in asan_hits if h[2] != "__cygprof_exit")}
+        for line, r in other[:1]:
+            C.violation(ctx, "hook-asan-harness", {"kind": "harness-failed", "harness_input": line, "rc": r["rc"],
+                                                   "stderr": r["stderr"][-1500:]}, True)
+        for line, env, where, err in [h for h in asan_hits if h[2] != "__cygprof_exit"][:1]:
+            C.violation(ctx, "hook-asan", {"kind": "property-violated-on-implementation", "harness_input": line,
+                                           "env": env, "what": "AddressSanitizer report outside __cygprof_exit",
+                                           "asan": "\n".join(err.split("\n")[:25]),
+                                           "theorem": "c19_end_to_end_balanced"})
+
+    # ---- findings
+    e2e = {}
+    oob_seen = bool(need_oob) or any(h[2] == "__cygprof_exit" for h in asan_hits)
+    if oob_seen:
+        cand = sorted((i for i in need_oob if i in mon), key=lambda i: (len(models[i]), i))
+        what = ("%s open: an exit hook that arrives with idx == 0 (the returns of runpy's frames after sys.exit()/an "
+                "uncaught exception) makes __cygprof_exit read rstack[-1].flags, 64 bytes before the malloc'ed array "
+                "(AddressSanitizer build: heap-buffer-overflow READ in %d of the %d runs with such a hook); when bit 14 of that word is set idx goes negative and the "
+                "following calls are lost (%d of %d harness cases; implementation matches the pre-fix model "
+                "guard=false)" % (F_OOB, asan.get("reports_in_cygprof_exit", 0), asan.get("cases_with_a_lone_exit", 0),
+                                  len(need_oob), n))
+        f = find_known(F_OOB)
+        if f is not None:
+            C.known(ctx, f, what + ("; minimal: %s" % models[cand[0]] if cand else ""))
+        else:
+            e2e["oob"] = e2e_confirm(ctx, "oob")
+            script = {"script": SCRIPT_OOB, "script_cmd": "PYTHONPATH=<repo>/python timeout 60 <repo>/uftrace record "
+                      "--libmcount-path=<repo>/libmcount --no-event -d D ./x.py; uftrace replay -d D  (repeat: the "
+                      "outcome depends on bit 14 of an address-space-layout dependent word)",
+                      "e2e": e2e["oob"], "finding": F_OOB, "witness_theorem": "c19_prefix_unpaired_oob_witness"}
+            if cand:
+                C.violation(ctx, "oob-case%d" % cand[0], replay_obj(cand[0], "property-violated-on-implementation", script))
+            elif asan_hits:
+                line, env, where, err = asan_hits[0]
+                o = {"kind": "property-violated-on-implementation", "harness_input": line, "env": env, "asan_build": True,
+                     "what": "heap-buffer-overflow READ in __cygprof_exit: rstack[idx - 1] with idx == 0",
+                     "asan": "\n".join(err.split("\n")[:25]), "theorem": "c19_lone_exit_ignored"}
+                o.update(script)
+                C.violation(ctx, "oob-asan", o)
+    if not need_alias and firstref == ["0"] and not_reused == 0 and any(c[2] == "frame-reuse" for c in cases):
+        ctx.notes.append("the tracer takes no reference to the first frame (refcount delta 0) and no frame-reuse case "
+                         "showed a dropped call: the allocator did not hand the first frame's block out again")
+    if need_alias:
+        cand = sorted((i for i in need_alias if i in mon), key=lambda i: (len(models[i]), i))
+        what = ("%s open: first_frame is remembered by address without a reference; a frame object allocated at that "
+                "address after the first frame was released is taken for it and all its events are dropped (%d of %d "
+                "harness cases; implementation matches the pre-fix model pin=false)" % (F_ALIAS, len(need_alias), n))
+        f = find_known(F_ALIAS)
+        if f is not None:
+            C.known(ctx, f, what + ("; minimal: %s" % models[cand[0]] if cand else ""))
+        else:
+            e2e["alias"] = e2e_confirm(ctx, "alias")
+            script = {"script": SCRIPT_ALIAS, "script_cmd": "PYTHONPATH=<repo>/python timeout 60 <repo>/uftrace record "
+                      "--libmcount-path=<repo>/libmcount --no-event -d D ./x.py; uftrace replay -d D -f none",
+                      "e2e": e2e["alias"], "finding": F_ALIAS, "witness_theorem": "c19_prefix_firstframe_alias_witness"}
+            i = cand[0] if cand else need_alias[0]
+            C.violation(ctx, "alias-case%d" % i,
+                        replay_obj(i, "property-violated-on-implementation" if cand else "model-code-disagreement", script),
+                        not cand)
+    # ---- anything the two findings do not explain
+    explained = set(need_oob) | set(need_alias)
+    rep = 0
+    for i in sorted((i for i in mon if i not in explained), key=lambda i: (len(models[i]), i))[:3]:
+        C.violation(ctx, "hook-case%d" % i, replay_obj(i, "property-violated-on-implementation"))
+        rep += 1
+    if not rep:
+        for i in sorted(unexplained, key=lambda i: (len(models[i]), i))[:3]:
+            C.violation(ctx, "hook-case%d" % i, replay_obj(i, "model-code-disagreement"), True)
+    classes = {}
+    for c in cases:
+        classes[c[2]] = classes.get(c[2], 0) + 1
+    nontrivial = set()
+    lone_total = 0
+    for i in range(n):
+        pr = parse_hook_impl(impls[i])
+        if pr and pr["recs"]:
+            nontrivial.add(models[i].split("|", 1)[1])
+        if pr:
+            lone_total += max(pr["lone"], 0)
+    samples = [{"model_input": models[i][:300], "impl": impls[i][:240], "model": var[("1", "1")][i][:240]}
+               for i in range(3, n, max(1, n // 4))]
+    return {"built": True, "cases": n, "by_class": classes, "distinct_with_records": len(nontrivial),
+            "disagreements_vs_repaired_model": len(neq), "explained_by_guard_false": len(need_oob),
+            "explained_by_pin_false": len(need_alias), "unexplained": len(unexplained),
+            "frame_reuse_cases_where_allocator_did_not_reuse": not_reused,
+            "monitor_failures_on_impl": len(mon), "exit_hooks_with_idx_0": lone_total,
+            "tracer_refcount_on_first_frame": firstref, "asan": asan, "e2e_confirmation": e2e, "samples": samples}
 
 
 def f2_open():
@@ -478,6 +1232,8 @@ def run(ctx):
                 C.violation(ctx, "case%d" % i, replay_obj(i, "model-code-disagreement"), True)
                 reported += 1
 
+    hook = run_hook_part(ctx, "0" if matches_prefix_everywhere else "1")
+
     e2e = {}
     if ctx.tier == "thorough":
         e2e = run_e2e(ctx)
@@ -501,14 +1257,19 @@ def run(ctx):
         samples.append({"model_input": lines[i][:300], "impl": C.norm(impls[i])[:200],
                         "model": C.norm(m_fixed[i])[:200]})
     ctx.coverage.update({
-        "evaluations": n,
+        "evaluations": n + (hook.get("cases", 0) if isinstance(hook, dict) else 0),
         "distinct_nontrivial": len(nontrivial),
         "rule": "corpus; then every properly nested profile-event stream of <= %d calls (%d events) over the "
                 "alphabet {a, g (main), lib.f (python library), os.getpid (C)} x 3 libcall modes x 12 "
                 "UFTRACE_FILTER strings; then random call trees (<= 40 calls, depth <= 9, 9 names) with random "
                 "1-4 entry filters over regex/glob/simple patterns, 20%% of them cut off at a random event; then "
                 "arbitrary (not nested) event sequences for model validation. distinct_nontrivial = distinct "
-                "cases where some but not all calls were recorded" % (3 if ctx.tier == "quick" else 4,
+                "cases where some but not all calls were recorded. end_to_end: corpus/C19/hook_cases.txt, then random "
+                "programs with frame objects (some cut off), programs followed by the lone exits of runpy's frames and "
+                "what still runs after them (bit 14 of the word below rstack set / clear / as found), streams in which "
+                "the first frame object is released and its block handed out again, 5-45 symbol names in sorted / "
+                "reversed / random order, arbitrary sequences; --max-stack default / 65535 / 2-5; the lone-exit cases "
+                "again under AddressSanitizer" % (3 if ctx.tier == "quick" else 4,
                                                                        6 if ctx.tier == "quick" else 8),
         "by_class": classes,
         "exhaustive_cases": nexh,
@@ -522,6 +1283,7 @@ def run(ctx):
         "monitor_vs_lean_spec_checked": len(spec_in),
         "monitor_vs_lean_spec_mismatch": spec_mismatch,
         "e2e": e2e,
+        "end_to_end": hook,
         "samples": samples,
     })
     if matches_prefix_everywhere:
@@ -530,8 +1292,9 @@ def run(ctx):
                          "c19_prefix_unbalanced_witness")
     ctx.notes.append("after sys.exit()/an uncaught exception the returns of runpy's frames still reach the tracer "
                      "(python/uftrace.py has no try/finally around exec): one unpaired cygprof_exit each in the "
-                     "default and --nest-libcall modes, dropped by libmcount with a WARN on stderr "
-                     "(c19_stray_return_unpaired_exit); the recorded trace stays balanced")
+                     "default and --nest-libcall modes (c19_stray_return_unpaired_exit), which reaches libmcount with "
+                     "idx == 0; the repaired __cygprof_exit drops it with a WARN on stderr (c19_lone_exit_ignored, "
+                     "c19_end_to_end_balanced), the code as found reads rstack[-1] (c19_prefix_unpaired_oob_witness)")
     ctx.assumptions += [
         "the interpreter delivers properly nested call/return, c_call/c_return|c_exception events to the profile "
         "function of one thread (sys.setprofile discipline); os._exit cuts the stream",
@@ -539,7 +1302,15 @@ def run(ctx):
         "libc regexec/fnmatch are abstracted as a predicate; the driver implements the subset "
         "{literal, ., x*, ^, $} / {literal, *, ?} that the generator uses",
         "harness resets the file's static state between cases to emulate a fresh process",
-        "libmcount's own handling of UFTRACE_FILTER on the pseudo addresses is not modelled (C05)",
+        "libmcount's own handling of UFTRACE_FILTER on the pseudo addresses is not modelled (C05): in the end-to-end "
+        "harness libmcount's constructor runs before UFTRACE_FILTER is set, the theorems assume `Plain` for libmcount",
+        "end-to-end harness: frame objects are types.SimpleNamespace objects (one allocator size class, so the LIFO "
+        "reuse of the first frame's block can be provoked by del@/new@); `set`/`clear` cases force bit 14 of the word "
+        "at &rstack[-1].flags for the duration of one hook call (it stands for arbitrary heap contents; under "
+        "uftrace record it varies with the address-space layout); after libmcount has taken rstack[-1] for a frame "
+        "the case is compared only up to that point",
+        "one thread, one process in the harness; the fork/multiprocessing part of the symbol-table model "
+        "(World) is covered by theorems only",
     ]
     return C.finish(ctx)
 
@@ -761,14 +1532,33 @@ def run_e2e(ctx):
                             "untraced_rc": base.returncode, "record_stderr": r.stderr[-500:],
                             "exit_mode": exit_mode,
                             "theorem": "c19_refines_doc / c19_balanced_output (end to end)"})
+    # what runs after the script has ended (atexit callbacks, threading._shutdown) belongs to the trace
+    # too: the two scripts of F-C19-FIRSTFRAME-ALIAS / F-C19-UNPAIRED-OOB
+    after = {}
+    for which, fid in (("alias", F_ALIAS), ("oob", F_OOB)):
+        e = e2e_confirm(ctx, which, tries=12)
+        after[which] = e
+        if e.get("runs_with_symptom"):
+            kf = find_known(fid)
+            if kf is not None:
+                C.known(ctx, kf, "%s open (script under uftrace record): %s in %d of %d runs" % (
+                    fid, e["detail"], e["runs_with_symptom"], e["runs"]))
+            else:
+                C.violation(ctx, "e2e-" + which, {
+                    "kind": "property-violated-on-implementation", "finding": fid,
+                    "script": SCRIPT_ALIAS if which == "alias" else SCRIPT_OOB, "e2e": e, "what": e["detail"],
+                    "theorem": "c19_end_to_end_balanced (calls after the end of the script)"})
     return {"built": True, "programs": nprog, "record_runs": runs, "failures": fails,
-            "known_F2_shapes": known_hits, "runs_with_unpaired_exit_warning": stray_warn}
+            "known_F2_shapes": known_hits, "runs_with_unpaired_exit_warning": stray_warn,
+            "after_script_end": after}
 
 
 def replay(ctx, path):
     obj = json.load(open(path))
     print(json.dumps(obj, indent=1))
     line = obj.get("model_input")
+    if obj.get("harness_input", "").startswith("hook ") or (line or "").startswith("hook "):
+        return replay_hook(ctx, obj)
     if not line or line.startswith("spec "):
         return 0
     ctx.snapshot()
@@ -789,3 +1579,43 @@ def replay(ctx, path):
     print("model (pre-fix) : " + C.norm(m0))
     print("monitor         : " + ("ok" if not bad else "%s: %s" % bad))
     return 1 if (bad or C.norm(impls[0]) != C.norm(m1)) else 0
+
+
+def replay_hook(ctx, obj):
+    from lib import h1
+    line = obj.get("harness_input") or obj["model_input"]
+    env = dict(obj.get("env") or {})
+    asan = bool(obj.get("asan_build"))
+    exe, log = build_hook_harness(ctx, asan=asan)
+    if exe is None:
+        print("harness build failed:\n" + log[-2000:])
+        return 2
+    r = run_hook_cases(ctx, exe, [(line, env, "replay")], asan=asan)[0]
+    rc = 0
+    if "AddressSanitizer" in r["stderr"]:
+        print("AddressSanitizer report:\n" + "\n".join(r["stderr"].split("\n")[:25]))
+        rc = 1
+    elif r["model"] is None or r["impl"] is None:
+        print("harness failed (rc %s): %s" % (r["rc"], r["stderr"][-800:]))
+        return 2
+    else:
+        impl = C.norm(r["impl"])
+        outs = {}
+        for g, p in (("1", "1"), ("0", "1"), ("1", "0")):
+            outs[(g, p)] = C.norm(C.run_model("C19", [hook_variant(r["model"], "1", g, p)])[0])
+        bad = hook_monitor(r["model"], impl)
+        print("case                       : " + r["model"])
+        print("environment                : %s" % env)
+        print("implementation             : " + impl)
+        print("model (repaired)           : " + outs[("1", "1")])
+        print("model (pre-fix guard=false): " + outs[("0", "1")])
+        print("model (pre-fix pin=false)  : " + outs[("1", "0")])
+        print("harness note               : " + r["note"])
+        print("monitor                    : " + ("ok" if not bad else "%s: %s" % bad))
+        rc = 1 if (bad or impl != outs[("1", "1")]) else 0
+    if obj.get("finding") in (F_OOB, F_ALIAS):
+        e = e2e_confirm(ctx, "oob" if obj["finding"] == F_OOB else "alias")
+        print("script under `uftrace record`: %s" % e)
+        if e.get("runs_with_symptom"):
+            rc = 1
+    return rc
